@@ -1,3 +1,4 @@
 import SynKitModel.Basic
 import SynKitModel.Graph
 import SynKitModel.Store
+import SynKitModel.Match
